@@ -155,6 +155,17 @@ def pool():
     P["badcolor"] = {"kind": "table", "df": tagged(3, 3), "body": {"text_color": ["red", "blue", "gold"]},
                      "title": {"text": "TT0", "text_color": "darkgreen"}, "_raises": True,
                      "post_assign": [["rtf_body", "text_color", [["red", "notacolour", "blue"]]]]}
+    # one body (page_by removes a column, text_convert recycles row-wise with period 3) for tables of different
+    # heights holding conversion triggers: whatever an encode derives from the body must not be kept ON the body
+    PBC = {"page_by": ["N2"], "text_convert": [[True], [False], [False]]}
+    for nm, n in (("pbc_a", 4), ("pbc_b", 10)):
+        P[nm] = {"kind": "table", "body": dict(PBC), "title": TT, "colheader": "none",
+                 "df": tagged(n, 1, extra=[{"name": "N1", "dtype": "str", "values": ["a_b >= 3 x^2"] * n},
+                                           {"name": "N2", "dtype": "str",
+                                            "values": ["G0v0"] * (n // 2) + ["G0v1"] * (n - n // 2)}])}
+    P["pbc_m"] = {"kind": "multi", "multi_header": "nested", "title": TT, "share_section_bodies": True,
+                  "sections": [{"df": P["pbc_a"]["df"], "body": dict(PBC), "colheader": "none"},
+                               {"df": P["pbc_b"]["df"], "body": dict(PBC), "colheader": "none"}]}
     # the default colour spelled out ("black") next to real colours
     P["blk_a"] = {"kind": "table", "df": tagged(3, 3), "body": {"text_color": ["black", "red", "black"],
                                                                 "text_background_color": [["", "black", "wheat"]]},
